@@ -90,6 +90,8 @@ type stepObs struct {
 	Roles [][3]int  `json:"roles"` // [account, status, weight]
 	Nodes [][2]int  `json:"nodes"` // [node index, status]
 	Strat [][3]int  `json:"strat"` // per module: [type, exprIdx, status]
+	PL    []int     `json:"pl"`    // status index "proposed": proposal indexes in the contract's order
+	QL    []int     `json:"ql"`    // status index "pause"
 }
 
 type histOut struct {
@@ -292,6 +294,27 @@ func (w *world) acctOf(a string) int {
 	return 999
 }
 
+// statusList reads GetProposalsByStatus(status) and maps the ids to creation indexes (998 = unknown id)
+func (w *world) statusList(status string) []int {
+	out := []int{}
+	ok, ret := w.c.View(constant.GovernanceContractAddr.Address(), "GetProposalsByStatus", pb.String(status))
+	if !ok {
+		return []int{997}
+	}
+	var ps []*contracts.Proposal
+	if err := json.Unmarshal(ret, &ps); err != nil {
+		return []int{996}
+	}
+	for _, p := range ps {
+		if i, ok := w.pidIdx[p.Id]; ok {
+			out = append(out, i)
+		} else {
+			out = append(out, 998)
+		}
+	}
+	return out
+}
+
 func (w *world) observe(rc [][2]int) stepObs {
 	c := w.c
 	out := stepObs{Rc: rc, Props: []propObs{}, Roles: [][3]int{}, Nodes: [][2]int{}, Strat: [][3]int{}}
@@ -374,6 +397,7 @@ func (w *world) observe(rc [][2]int) stepObs {
 		sort.Slice(po.Elect, func(i, j int) bool { return po.Elect[i][0] < po.Elect[j][0] })
 		out.Props = append(out.Props, po)
 	}
+	out.PL, out.QL = w.statusList(string(contracts.PROPOSED)), w.statusList(string(contracts.PAUSED))
 	role := constant.RoleContractAddr.Address()
 	var accts []int
 	for a := range w.keys {
